@@ -1602,8 +1602,13 @@ class Data(BaseCartesianData):
         # Update components that exist in both. Note that we can't just loop
         # over old_labels & new_labels since we need to make sure we preserve
         # the order of the components, and sets don't preserve order.
+        # Note that pixel and world coordinate components are computed on
+        # the fly from the shape and coords (which are updated separately),
+        # so these shouldn't be updated from or copied over from the new data.
         for cid in self.components:
             cname = cid.label
+            if cid in self.coordinate_components:
+                continue
             if cname in old_labels & new_labels:
                 comp_old = self.get_component(cname)
                 comp_new = data.get_component(cname)
@@ -1613,6 +1618,8 @@ class Data(BaseCartesianData):
         # and preserve the order of components as much as possible.
         for cid in data.components:
             cname = cid.label
+            if cid in data.coordinate_components:
+                continue
             if cname in new_labels - old_labels:
                 cid = data.find_component_id(cname)
                 comp_new = data.get_component(cname)
